@@ -266,7 +266,9 @@ func c04R1(c *Ctx, p *Prog, R string) {
 				// the unit as written: only where it equals Tidy's unit, decided by comparing the strings
 				guarded, floatGuard := false, ""
 				var call *Sym
-				for k, v := range o.Assign {
+				for _, k := range o.AtomKeys() {
+					v := o.Assign[k]
+					_ = v
 					s := o.AtomSyms[k]
 					if s.Op != "binop" || len(s.Args) != 2 {
 						continue
@@ -700,7 +702,9 @@ func c04R2(c *Ctx, p *Prog) {
 		isRow := false
 		var absent []string
 		unknown := ""
-		for k, v := range o.Assign {
+		for _, k := range o.AtomKeys() {
+			v := o.Assign[k]
+			_ = v
 			s := o.AtomSyms[k]
 			switch {
 			case s.Op == "binop" && s.Tok == token.EQL && s.Args[0].Op == "param" && s.Args[1].isConst():
@@ -1085,7 +1089,7 @@ func c04R5(c *Ctx, p *Prog) {
 			}
 			relevant := false
 			for _, o := range outs {
-				for k := range o.Assign {
+				for _, k := range o.AtomKeys() {
 					if cl := classify(o.AtomSyms[k]); cl == "Mu" || cl == "Mo" {
 						relevant = true
 					}
@@ -1100,7 +1104,9 @@ func c04R5(c *Ctx, p *Prog) {
 			bad := ""
 			for _, o := range outs {
 				val := map[string]*bool{}
-				for k, v := range o.Assign {
+				for _, k := range o.AtomKeys() {
+					v := o.Assign[k]
+					_ = v
 					vv := v
 					switch cl := classify(o.AtomSyms[k]); cl {
 					case "Mu", "Mo", "G":
@@ -1253,7 +1259,9 @@ func c04R6(c *Ctx, p *Prog) {
 			ok := true
 			detail := ""
 			for _, o := range outs {
-				for k, v := range o.Assign {
+				for _, k := range o.AtomKeys() {
+					v := o.Assign[k]
+					_ = v
 					if o.AtomSyms[k].IsFieldLoad(denomF) && v {
 						seen = true
 						if !(o.Term == "exit" && o.Exit == lp.Header) {
